@@ -159,7 +159,7 @@ def sig_of(r):
 
 
 def main():
-    ck = yv.Check("C06", "exploration", deadlines=(540, 3300))
+    ck = yv.Check("C06", "exploration", deadlines=(700, 3300))
     quick = ck.tier == "quick"
     S = [("%02d:%s" % (i, nm), d) for i, (nm, d) in enumerate(seeds(quick))]
     text, nrules = rules()
